@@ -672,6 +672,7 @@ func runC02(c *Ctx) {
 	}
 	c02Reps(c)
 	c02Trees(c)
+	c02Families(c)
 	c02Classes(c, maxCls)
 	c.Sample("nil-classes", autCase{N: 6, Mask: 0x4c31, G6: g6(6, 0x4c31)})
 	c.Assume("vertex classes are passed as lists covering every vertex exactly once; class lists in ascending or descending order")
@@ -679,6 +680,12 @@ func runC02(c *Ctx) {
 
 func replayC02(kind string, raw json.RawMessage) *Failure {
 	switch kind {
+	case "family-aut":
+		var fc famCase
+		if err := json.Unmarshal(raw, &fc); err != nil {
+			return &Failure{Class: "replay/bad-file", What: err.Error()}
+		}
+		return evalFamAut(fc)
 	case "aut", "aut-size":
 		var ac autCase
 		if err := json.Unmarshal(raw, &ac); err != nil {
